@@ -1020,3 +1020,13 @@ M("C13", "benign-status-guard-isascii-isdigit", "benign",
 M("C18", "status-digit-guard-dropped", "breaking",
   [(CP, "GeminiClientProtocol._parse_header", _GUARD, "")],
   "Z8:client.protocol:GeminiClientProtocol._parse_header:status-range")
+
+RQ = "protocol/request.py"
+M("C08", "titan-fragment-check-dropped", "breaking",
+  [(RQ, "TitanRequest.from_line", "        if \"#\" in line:\n            raise ValueError(f\"URL must not contain fragment: {line}\")\n", "")],
+  "V2:protocol.request:TitanRequest.from_line:titan-accepts:a fragment")
+M("C08", "titan-userinfo-check-on-cut-part", "breaking",
+  [(RQ, "TitanRequest.from_line", "        if \"@\" in re.split(r\"[/?#]\", line[8:], maxsplit=1)[0]:\n", "        if \"@\" in line.split(\";\", 1)[0]:\n")],
+  "V2:protocol.request:TitanRequest.from_line:titan-accepts:a user-info")
+M("C08", "benign-titan-authority-by-partition", "benign",
+  [(RQ, "TitanRequest.from_line", "        if \"@\" in re.split(r\"[/?#]\", line[8:], maxsplit=1)[0]:\n", "        authority = line[len(\"titan://\"):].partition(\"/\")[0].partition(\"?\")[0]\n        if \"@\" in authority:\n")])
